@@ -36,16 +36,21 @@ type vSvcScenario struct {
 	// Adopted: the workload is already running in the cluster and the lease is
 	// active on chain when the service starts (provider restart)
 	Adopted bool `json:"adopted,omitempty"`
+	// Hosts > 0: the manifest names that many hostnames; Taken >= 0: that one
+	// is held by another deployment before the manifest arrives
+	Hosts int `json:"hosts,omitempty"`
+	Taken int `json:"taken,omitempty"`
 }
 
 type vSvcRun struct {
-	Scenario vSvcScenario      `json:"scenario"`
-	Calls    []vs.GateCallView `json:"calls"`
-	Notes    []string          `json:"notes,omitempty"`
-	Leases   uint32            `json:"leases_at_end"`
-	Pending  int               `json:"reservations_pending_at_end"`
-	Active   int               `json:"reservations_active_at_end"`
-	HostFree bool              `json:"hostname_free_at_end"`
+	Scenario  vSvcScenario      `json:"scenario"`
+	Calls     []vs.GateCallView `json:"calls"`
+	Notes     []string          `json:"notes,omitempty"`
+	Leases    uint32            `json:"leases_at_end"`
+	Pending   int               `json:"reservations_pending_at_end"`
+	Active    int               `json:"reservations_active_at_end"`
+	HostFree  bool              `json:"hostname_free_at_end"`
+	HostsHeld []string          `json:"hostnames_still_held,omitempty"`
 }
 
 const vSvcTimeout = 15 * time.Second
@@ -67,6 +72,15 @@ func vSvcScenarios() []vSvcScenario {
 		{Name: "adopted-then-closed", Steps: []string{"wait-deploy", "D+", "close", "wait-teardown", "T+"}, Adopted: true},
 		{Name: "adopted-closed-during-redeploy", Steps: []string{"wait-deploy", "close", "D+", "wait-teardown", "T+"}, Adopted: true},
 		{Name: "adopted-closed-at-once", Steps: []string{"close", "pause"}, Adopted: true},
+		// the manifest names several hostnames and one of them (first / last /
+		// middle) is held by another deployment: the reservation is refused as a
+		// whole, the manager gives up, the lease closes - none of the names may
+		// stay reserved for the dead lease
+		{Name: "second-hostname-taken-then-closed", Steps: []string{"reserve", "manifest", "settle", "close"}, Hosts: 2, Taken: 1},
+		{Name: "first-hostname-taken-then-closed", Steps: []string{"reserve", "manifest", "settle", "close"}, Hosts: 2, Taken: 0},
+		{Name: "middle-hostname-taken-then-closed", Steps: []string{"reserve", "manifest", "settle", "close"}, Hosts: 3, Taken: 1},
+		{Name: "last-hostname-taken-close-first", Steps: []string{"reserve", "manifest", "close", "settle"}, Hosts: 3, Taken: 2},
+		{Name: "several-hostnames-deployed-then-closed", Steps: []string{"reserve", "manifest", "wait-deploy", "D+", "close", "wait-teardown", "T+"}, Hosts: 3, Taken: -1},
 		{Name: "manifest-during-failing-teardown", Steps: []string{"reserve", "manifest", "wait-deploy", "D+", "close", "wait-teardown", "update", "pause", "T1"}},
 	}
 }
@@ -117,12 +131,33 @@ func vRunSvcScenario(sc vSvcScenario) (*vSvcRun, []vDMViolation) {
 		Count: 1, Price: sdk.NewInt64Coin("uakt", 1)}}}
 	dgroup := dtypes.Group{GroupID: lease.GroupID(), State: dtypes.GroupOpen, GroupSpec: gspec}
 	host := "h1.tenant.example.com"
+	hosts := []string{host}
+	taken := -1
+	if sc.Hosts > 0 {
+		hosts, taken = nil, sc.Taken
+		for i := 1; i <= sc.Hosts; i++ {
+			hosts = append(hosts, fmt.Sprintf("h%d.tenant.example.com", i))
+		}
+		if taken >= 0 {
+			holder := dtypes.DeploymentID{Owner: owner, DSeq: 777}
+			select {
+			case e := <-svc.HostnameService().ReserveHostnames([]string{hosts[taken]}, holder):
+				if e != nil {
+					note("could not pre-reserve %s: %v", hosts[taken], e)
+					return run, out
+				}
+			case <-time.After(vSvcTimeout):
+				note("hostname service did not answer")
+				return run, out
+			}
+		}
+	}
 	nMan := 0
 	mkManifest := func() *manifest.Manifest {
 		nMan++
 		m := manifest.Manifest{{Name: "g", Services: []manifest.Service{{Name: "web", Image: fmt.Sprintf("img:%d", nMan), Count: 1,
 			Resources: gspec.Resources[0].Resources,
-			Expose:    []manifest.ServiceExpose{{Port: 80, Proto: manifest.TCP, Global: true, Hosts: []string{host}}}}}}}
+			Expose:    []manifest.ServiceExpose{{Port: 80, Proto: manifest.TCP, Global: true, Hosts: append([]string(nil), hosts...)}}}}}}
 		return &m
 	}
 	closedAt := int64(0)
@@ -221,10 +256,20 @@ func vRunSvcScenario(sc vSvcScenario) (*vSvcRun, []vDMViolation) {
 		run.Pending, run.Active = len(status.Inventory.Pending), len(status.Inventory.Active)
 	}
 	other := dtypes.DeploymentID{Owner: owner, DSeq: 999}
-	select {
-	case e := <-svc.HostnameService().CanReserveHostnames([]string{host}, other):
-		run.HostFree = e == nil
-	case <-time.After(vSvcTimeout):
+	run.HostFree = true
+	for i, hn := range hosts {
+		if i == taken {
+			continue // held by the other deployment all along
+		}
+		select {
+		case e := <-svc.HostnameService().CanReserveHostnames([]string{hn}, other):
+			if e != nil {
+				run.HostFree = false
+				run.HostsHeld = append(run.HostsHeld, hn)
+			}
+		case <-time.After(vSvcTimeout):
+			run.HostFree = false
+		}
 	}
 	bad := func(rule, detail string) {
 		out = append(out, vDMViolation{rule, sc.Name, fmt.Sprintf("service-level scenario %s %v: %s; calls: %s", sc.Name, sc.Steps, detail, vCallsString(run.Calls))})
@@ -269,7 +314,7 @@ func vRunSvcScenario(sc vSvcScenario) (*vSvcRun, []vDMViolation) {
 			bad("reservation-released-after-close", fmt.Sprintf("the lease closed but the inventory still holds %d pending / %d active reservation(s)", run.Pending, run.Active))
 		}
 		if !run.HostFree {
-			bad("hostnames-released-after-close", "the lease closed but its hostname cannot be reserved by another deployment")
+			bad("hostnames-released-after-close", fmt.Sprintf("the lease closed but its hostname(s) %v cannot be reserved by another deployment", run.HostsHeld))
 		}
 		if run.Leases != 0 {
 			bad("manager-ends-after-close", fmt.Sprintf("the lease closed but %d deployment manager(s) are still registered", run.Leases))
